@@ -353,7 +353,7 @@ func ParentMain(tier string) int {
 	r := verdict.New("C16", tier, "exploration")
 	r.Rule = "differential: every StateDB call's return value, and per transaction consensus-error class, UsedGas, ReturnData, vm error, contract address, logs, then every touched account (exist, empty, balance, nonce, code, every touched slot current+committed) and the raw native b_<addr>_OLT record, adapter vs go-ethereum v1.10.8 core/state driven by the same interpreter, chain config, block context and a port of vm/state_transition.go"
 	r.Assumptions = []string{
-		"reference message rules are a port of /repo/vm/state_transition.go (no coinbase payment, nonce-too-high tolerated, refund quotient 3); only the state implementation differs",
+		"reference message rules are a port of /repo/vm/state_transition.go (no coinbase payment, refund quotient 3); only the state implementation differs",
 		"adapter driven as app.txDeliverer/blockEnder/commitor do: Prepare, BeginTxSession, EVMTransaction.Apply, ConsumeContractGas, Finality, Commit/DiscardTxSession; Reset + State.Commit + fresh deliver state per block; block gas limit = consensus MaxGas -1",
 		"a transaction whose tx session the app discards is rolled back on the reference side too (go-ethereum's miner reverts to the pre-tx snapshot on a consensus error)",
 		"BLOCKHASH and BASEFEE are never generated (GetHashFn needs a block store; BaseFee is nil in EVMTransaction.NewEVM)",
